@@ -22,6 +22,8 @@ pub enum SrcFault {
     TokenSubst(usize, usize, String),
     /// spurious token inserted at k
     Insert(usize, String),
+    /// spurious text (whole lines) inserted at k
+    InsertRaw(usize, String),
 }
 
 impl SrcFault {
@@ -38,6 +40,7 @@ impl SrcFault {
             SrcFault::Crlf => "crlf",
             SrcFault::TokenSubst(..) => "token_subst",
             SrcFault::Insert(..) => "token_insert",
+            SrcFault::InsertRaw(..) => "line_insert",
         }
     }
     pub fn apply(&self, src: &[u8]) -> Vec<u8> {
@@ -115,6 +118,13 @@ impl SrcFault {
                 let mut v = src[..k].to_vec();
                 v.extend_from_slice(s.as_bytes());
                 v.push(b' ');
+                v.extend_from_slice(&src[k..]);
+                v
+            }
+            SrcFault::InsertRaw(k, s) => {
+                let k = c(*k);
+                let mut v = src[..k].to_vec();
+                v.extend_from_slice(s.as_bytes());
                 v.extend_from_slice(&src[k..]);
                 v
             }
@@ -207,9 +217,16 @@ pub fn sectors(src: &[u8]) -> Vec<Span> {
     (0..src.len()).step_by(16).map(|s| Span(s, (s + 16).min(src.len()))).collect()
 }
 
-pub const SINGLE_KINDS: [&str; 15] = [
+pub const SINGLE_KINDS: [&str; 16] = [
     "eof", "torn_tail", "lost_token", "lost_line", "lost_sector", "dup_token", "dup_line", "swap_tokens", "swap_lines",
-    "bit_flip", "byte_subst", "crlf", "token_subst", "token_insert", "own_subst",
+    "bit_flip", "byte_subst", "crlf", "token_subst", "token_insert", "own_subst", "line_insert",
+];
+
+/// Whole lines a confused producer may splice in at a line boundary: unbalanced or operand-less
+/// directives, comment and string openers/closers.
+pub const LINES: [&str; 22] = [
+    "#endif", "#else", "#elif 1", "#elif", "#if", "#if 0", "#if 1", "#ifdef", "#ifndef X", "#define", "#define X X", "#undef",
+    "#undef X", "#include", "#include \"nofile.h\"", "#include <", "#error", "#error stop", "#", "/*", "*/", "\"",
 ];
 
 /// distinct token texts of a program, in order of first appearance
@@ -243,6 +260,7 @@ pub fn space(kind: &str, src: &[u8]) -> usize {
         "token_subst" => t * DICT.len(),
         "token_insert" => (t + 1) * DICT.len(),
         "own_subst" => t * own_vocabulary(src).len(),
+        "line_insert" => (n + 1) * LINES.len(),
         _ => 0,
     }
 }
@@ -292,6 +310,13 @@ pub fn nth(kind: &str, src: &[u8], idx: usize) -> SrcFault {
             let voc = own_vocabulary(src);
             let s = tokens(src)[idx / voc.len()];
             SrcFault::TokenSubst(s.0, s.1, String::from_utf8_lossy(&voc[idx % voc.len()]).to_string())
+        }
+        "line_insert" => {
+            let l = lines(src);
+            let k = idx / LINES.len();
+            let pos = if k < l.len() { l[k].0 } else { src.len() };
+            let nl = if pos == src.len() && !src.ends_with(b"\n") && !src.is_empty() { "\n" } else { "" };
+            SrcFault::InsertRaw(pos, format!("{}{}\n", nl, LINES[idx % LINES.len()]))
         }
         "token_insert" => {
             let t = tokens(src);
